@@ -152,6 +152,8 @@ pub struct Plan {
     pub fail: Vec<(usize, ErrorKind)>,
     /// Fail every operation from index k on with this kind (a storage outage).
     pub fail_from: Option<(usize, ErrorKind)>,
+    /// Fail the n-th (0-based) operation with this verb.
+    pub fail_nth_verb: Option<(Verb, usize, ErrorKind)>,
 }
 
 impl Plan {
@@ -183,6 +185,9 @@ impl Plan {
         }
         if let Some((k, kind)) = self.fail_from {
             s.push(format!("fail every op from {k} with {}", kind_name(kind)));
+        }
+        if let Some((verb, n, kind)) = self.fail_nth_verb {
+            s.push(format!("fail {} number {n} with {}", verb_name(verb), kind_name(kind)));
         }
         if s.is_empty() {
             "no fault".into()
@@ -224,6 +229,7 @@ pub struct Icpt {
     pub plan: Plan,
     pub log: Mutex<Vec<OpRec>>,
     counter: AtomicUsize,
+    verb_counter: Mutex<Vec<(Verb, usize)>>,
     pub crashed: AtomicBool,
     pub notify: Arc<tokio::sync::Notify>,
     pub keep_content: bool,
@@ -236,6 +242,7 @@ impl Icpt {
             plan,
             log: Mutex::new(Vec::new()),
             counter: AtomicUsize::new(0),
+            verb_counter: Mutex::new(Vec::new()),
             crashed: AtomicBool::new(false),
             notify: Arc::new(tokio::sync::Notify::new()),
             keep_content: true,
@@ -295,6 +302,25 @@ impl Interceptor for Icpt {
                 self.crashed.store(true, Ordering::SeqCst);
                 self.notify.notify_one();
                 action = Action::Crash;
+            }
+        }
+        if let Some((verb, n, kind)) = self.plan.fail_nth_verb {
+            if verb == op.verb && action == Action::Proceed {
+                let mut vc = self.verb_counter.lock().unwrap();
+                let seen = match vc.iter_mut().find(|(v, _)| *v == verb) {
+                    Some(e) => {
+                        e.1 += 1;
+                        e.1 - 1
+                    }
+                    None => {
+                        vc.push((verb, 1));
+                        0
+                    }
+                };
+                if seen == n {
+                    rec.injected = Some(format!("fail {}", kind_name(kind)));
+                    action = Action::Fail(kind);
+                }
             }
         }
         if action == Action::Proceed {
